@@ -90,6 +90,17 @@ def functions():
     def moveaxis(r):
         sh = shapes(r, 2)
         s, d = int(r.integers(-len(sh), len(sh))), int(r.integers(-len(sh), len(sh)))
+        if r.random() < .5:
+            # sequences of axes, destinations in any order, negative spellings (seeded change C09-13: the permutation was
+            # built from the pairs in the order given instead of sorted by destination)
+            k = int(r.integers(1, len(sh) + 1))
+            s = [int(x) for x in r.permutation(len(sh))[:k]]
+            d = [int(x) for x in r.permutation(len(sh))[:k]]
+            if r.random() < .3:
+                s = [x - len(sh) if r.random() < .5 else x for x in s]
+                d = [x - len(sh) if r.random() < .5 else x for x in d]
+            if r.random() < .3:
+                s, d = tuple(s), tuple(d)
         return [P(r, sh)], lambda a: numpoly.moveaxis(a, s, d), lambda i: numpy.moveaxis(i, s, d), {"source": s, "dest": d}
     one("moveaxis", moveaxis)
 
@@ -132,13 +143,23 @@ def functions():
             else:
                 ax = None
             ops = []
-            twins = r.random() < .25
+            twins = r.random() < .4
             for _ in range(k):
                 s2 = list(sh)
                 if name == "concatenate" and sh:
                     s2[ax] = int(r.integers(1, 3))
                 if twins and ops and ops[0]["kind"] == "int":
-                    ops.append(twin(r, ops[0], tuple(s2)))
+                    t = twin(r, ops[0], tuple(s2))
+                    if r.random() < .5:
+                        # a renamed twin: the same exponent rows (hence the same storage keys) over another name tuple of the
+                        # same length - (q0,) next to (q1,), (q0, q1) next to (q0, q2) (seeded change C09-14: a join that
+                        # skipped the alignment of operands whose keys agree)
+                        shift = int(r.integers(1, 3))
+                        t["names"] = [n + shift for n in t["names"]] if r.random() < .5 else t["names"][:-1] + [t["names"][-1] + shift]
+                        if r.random() < .8:
+                            t["terms"] = sorted(t["terms"], key=lambda u: u[0])
+                            ops[0]["terms"] = sorted(ops[0]["terms"], key=lambda u: u[0])
+                    ops.append(t)
                 else:
                     ops.append(P(r, tuple(s2), names=gen.gen_names(r, 1, 3), kind="int" if twins else None))
             # either spelling: numpoly.<name> or numpy.<name> (dispatch through __array_function__)
